@@ -23,7 +23,7 @@ CHECKS = {
             "knot_remove on reference-refined and generic curves: must succeed exactly when removable; otherwise either ValueError+unchanged or deviation within the stated bound (exact integral); tolerance=None keeps values at remaining knots.",
             "Trusted: oracle.represent/in_space/integral. Degree <= 4.", "DESIGN.md 4/C05"),
     "C06": ("Hypothesis property test; knot model + exact same-function decision",
-            "degree_increase / degree setter on generated curves: multiplicities +t, same function (exact); degree_decrease restores elevated curves exactly, refuses non-representable ones leaving them unchanged, tolerance=None keeps knot values.",
+            "degree_increase / degree setter on generated curves: multiplicities +t, same function (exact); degree_decrease restores elevated curves exactly, refuses non-representable ones leaving them unchanged, tolerance=None keeps knot values and is the constrained best approximation (exactly for Fractions, to 1e-7 for float data).",
             "Trusted: oracle. Degree <= 3 before elevation, t <= 2 (3 thorough).", "DESIGN.md 4/C06"),
     "C07": ("Hypothesis property test; exact restriction/junction oracle",
             "split pieces compared exactly with the original on each sub-interval (knots, clamping, function); joins of split pieces and of independently generated adjacent pairs compared exactly with both operands; junction multiplicity must be minimal.",
@@ -47,10 +47,10 @@ CHECKS = {
             "A == B for reference-refined / perturbed / rational variants in both operand orders; expected answer decided exactly by the reference; != negation; non-curves False; operands unchanged.",
             "Trusted: oracle.refine_state/same_function. Ambiguous band [1e-10,1e-8] skipped and counted.", "DESIGN.md 4/C13"),
     "C14": ("Hypothesis refinement histories (as data) vs. exact minimal form",
-            "Minimal curves refined by random insert/elevate sequences, then clean calls in any order: function preserved exactly, idempotent, clean() returns exactly the minimal knot vector and control points computed by the reference.",
-            "Trusted: oracle.minimal_form. Polynomial curves.", "DESIGN.md 4/C14"),
+            "Minimal curves refined by random insert/elevate sequences, then clean calls in any order: function preserved exactly (within what the tolerance allows for nearly removable / kinked curves), idempotent, clean() returns exactly the minimal knot vector and control points computed by the reference; rational curves: nothing removable in homogeneous coordinates is left.",
+            "Trusted: oracle.minimal_form. Exact minimal form for polynomial curves; rational curves in homogeneous coordinates.", "DESIGN.md 4/C14"),
     "C15": ("model-based operation histories over three curves (two sharing a KnotVector) with structural invariant + snapshots",
-            "Histories of every public Curve mutator/non-mutator with valid and invalid arguments: structural invariant after every step, untouched operands, atomic failures, independence of copies and of curves built from one KnotVector object.",
+            "Histories of every public Curve mutator/non-mutator with valid and invalid arguments: structural invariant after every step, untouched operands, atomic failures, independence of copies and of curves built from one KnotVector object, including a curve that has no control points yet.",
             "Trusted: snapshots by value. Does not assert which requests must raise.", "DESIGN.md 4/C15"),
     "C16": ("Hypothesis differential test across number representations + type walk",
             "Same structural case as Fraction / float / np.float64 / minimal point type through the listed operations: exact profile must stay rational and equal the reference; float profiles agree to 1e-9.",
@@ -59,7 +59,7 @@ CHECKS = {
             "U|V and U&V on generated same-interval pairs compared with the per-knot model; commutative, idempotent, operands unchanged, different intervals rejected; random splines over U and V are representable on U|V and U|V is coarsest.",
             "Trusted: oracle.union_model + represent.", "DESIGN.md 4/C17"),
     "C18": ("exhaustive sweep over (p, n, cls) + Hypothesis for weights/affine maps/invariance",
-            "Generators compared with closed forms for every (degree, npts, class) in range (exhaustive), limits exactly (0,1); shift/scale/normalize keep structure and map knots affinely; basis functions invariant under reparametrisation.",
+            "Generators compared with closed forms for every (degree, npts, class) in range (exhaustive), limits exactly (0,1); shift/scale/normalize and the operator spellings (* / + - and in-place forms, int / Fraction / float operands) keep structure and map knots affinely; basis functions invariant under reparametrisation, also when an evaluated object's knot vector is mapped in place or re-assigned.",
             "Trusted: closed forms. p <= 6, n <= p+60 (quick) / p+400 (thorough).", "DESIGN.md 4/C18"),
     "C19": ("Hypothesis property test vs. exact point-segment distances; iteration bound for termination",
             "Polylines: returned parameters sorted, inside, equidistant, at the exact minimum distance; general curves: structural claims, stationarity, on-curve points; termination bounded by evaluation count.",
